@@ -58,6 +58,7 @@ class FnInfo:
         self.verus_names = []
         self.probes = []
         self.lost = []
+        self.lost_subs = []
         self.assumed = False
         self.unproved_anchor = None
         self.unproved_reason = None
@@ -214,7 +215,9 @@ def build_fn(unit, file_spec, item_spec, opts, sections, log, probes=False):
             m = re.match(r"sub\s+`(.*)`\s*=>\s*`(.*)`", key, re.S)
             text, n = re.subn(m.group(1), m.group(2), text)
             if n == 0:
-                info.lost.append("sub `%s` matched nothing" % m.group(1))
+                # a sub only makes a construct ingestible; if the construct is gone and Verus still ingests the
+                # function, nothing is lost for the proof
+                info.lost_subs.append("sub `%s` matched nothing" % m.group(1))
             log.hit("R8 per-function substitution `%s` => `%s`" % (m.group(1), m.group(2)), n)
     # leading attributes kept by R1 (derive(Debug), repr) stay in front of the item
     lead = ""
@@ -449,9 +452,11 @@ def build_fn(unit, file_spec, item_spec, opts, sections, log, probes=False):
         # compute per-line clause mapping
         ln_no = cur_line
         for ln, c in blk:
+            span = ln.count("\n") + 1
             if c is not None:
-                rel.append((c, ln_no))
-            ln_no += 1
+                for k in range(span):
+                    rel.append((c, ln_no + k))
+            ln_no += span
         out.append(s)
         cur_line += s.count("\n")
     out.append(text[pos:])
